@@ -40,6 +40,16 @@ type c17S struct {
 	N int    `yaml:"n"`
 }
 
+// configuration-properties types: an untagged field of such a type is bound by the prefix its
+// Prefix() method names
+type c17CPm c17S
+
+func (c17CPm) Prefix() string { return "m" }
+
+type c17CPms c17S
+
+func (*c17CPms) Prefix() string { return "ms" }
+
 var c17Vals = map[string]any{
 	"i0": 0, "i1": 1, "im1": -1, "i31": 1 << 31, "i53": (1 << 53) + 1, "imax": int64(9223372036854775807),
 	"f15": 1.5, "f01": 0.1, "f1e21": 1e21, "f2": 2.0,
@@ -217,6 +227,11 @@ func c17Run(c *core.Ctx) {
 				}
 			}
 		}
+		for _, tc := range [][2]string{{"m", "cpm"}, {"m", "pcpm"}, {"ms", "pcpms"}} {
+			if !yield(c17Case{tc[0], tc[1], "properties-interface"}) {
+				return
+			}
+		}
 		for _, k := range vk {
 			s, ok := c17Vals[k].(string)
 			if !ok || s == "" || k == "scomma" {
@@ -240,6 +255,9 @@ func c17Run(c *core.Ctx) {
 	}
 	Cases(c, gen, func(c *core.Ctx, cs c17Case) {
 		t := c17Types[cs.Type]
+		if cs.Path == "properties-interface" {
+			t = map[string]reflect.Type{"cpm": reflect.TypeOf(c17CPm{}), "pcpm": reflect.TypeOf(&c17CPm{}), "pcpms": reflect.TypeOf(&c17CPms{})}[cs.Type]
+		}
 		c.S.Evaluations++
 		c.S.Programs++
 		c.S.States++
@@ -273,6 +291,8 @@ func c17Run(c *core.Ctx) {
 			tag = fmt.Sprintf(`prop:"%s:%s"`, cs.Val, c17Default(cs.Type))
 		case "literal":
 			tag = "value:" + strconv.Quote(raw.(string))
+		case "properties-interface":
+			tag = `yaml:"-"` // no container tag: the field's type names its prefix
 		}
 		var preset any
 		if strings.HasSuffix(cs.Path, "-preset") {
@@ -283,10 +303,12 @@ func c17Run(c *core.Ctx) {
 		switch {
 		case o.Panic != "" || o.Abort != "":
 			observed = "panic: " + o.Panic + o.Abort
+		case len(o.ChildPanics) > 0:
+			observed = "panic in a goroutine of the scanning phase (fatal for a real process): " + scen.FirstLine(fmt.Errorf("%s", o.ChildPanics[0]))
 		case o.Err != nil:
 			observed = "start-up error"
 		}
-		if observed == "start-up error" || o.Panic != "" || o.Abort != "" || !reflect.DeepEqual(c17Norm(got), c17Norm(want)) {
+		if observed == "start-up error" || o.Panic != "" || o.Abort != "" || len(o.ChildPanics) > 0 || !reflect.DeepEqual(c17Norm(got), c17Norm(want)) {
 			c.Outcome(cs.Path + "/differs")
 			key := fmt.Sprintf("C17/%s/%s/%s/%s", cs.Path, cs.Type, cs.Val, core.Hash(observed))
 			c.Report(key, "value-changed", fmt.Sprintf("%s path, field type %s, configured value %s = %#v: field holds %s, want %s", cs.Path, cs.Type, cs.Val, raw, observed, c17Show(want)), cs)
